@@ -1353,6 +1353,14 @@ type boundsSummary struct {
 	nparam, nres int
 	m            *dbm // indices: 0 zero; 1..nparam params (int value or len); then results
 	ok           bool
+	// guarded facts: the same constraints joined only over the returns on which result ri can be true / non-nil
+	// (val true) or false (val false) — `data, ok := z.take(k)`, `if data := z.readFixed(k); data != nil`.
+	cond map[guardKey]*dbm
+}
+
+type guardKey struct {
+	ri  int
+	val bool
 }
 
 func (b *boundsFn) transferCall(d *dbm, c *ssa.Call) {
@@ -1555,16 +1563,20 @@ func (b *boundsFn) applySummary(d *dbm, c *ssa.Call, s *boundsSummary) {
 }
 
 func (b *boundsFn) applySummaryResult(d *dbm, c *ssa.Call, s *boundsSummary, ri int, res ssa.Value) {
+	b.applySummaryMatrix(d, c, s, s.m, ri, res)
+}
+
+func (b *boundsFn) applySummaryMatrix(d *dbm, c *ssa.Call, s *boundsSummary, m *dbm, ri int, res ssa.Value) {
 	rv, _, _ := b.summaryVarOfValue(res)
-	if rv < 0 || ri >= s.nres {
+	if rv < 0 || ri >= s.nres || m == nil {
 		return
 	}
 	sr := 1 + s.nparam + ri
 	// against zero
-	if x := s.m.get(sr, 0); x < bInf {
+	if x := m.get(sr, 0); x < bInf {
 		d.add(rv, 0, x)
 	}
-	if x := s.m.get(0, sr); x < bInf {
+	if x := m.get(0, sr); x < bInf {
 		d.add(0, rv, x)
 	}
 	for pi, a := range c.Call.Args {
@@ -1573,14 +1585,14 @@ func (b *boundsFn) applySummaryResult(d *dbm, c *ssa.Call, s *boundsSummary, ri 
 		}
 		av, ac, aC := b.summaryVarOfValue(a)
 		sp := 1 + pi
-		if x := s.m.get(sr, sp); x < bInf {
+		if x := m.get(sr, sp); x < bInf {
 			if aC {
 				d.add(rv, 0, x+ac)
 			} else if av >= 0 {
 				d.add(rv, av, x)
 			}
 		}
-		if x := s.m.get(sp, sr); x < bInf {
+		if x := m.get(sp, sr); x < bInf {
 			if aC {
 				d.add(0, rv, x-ac)
 			} else if av >= 0 {
@@ -1663,8 +1675,30 @@ func (b *boundsFn) refine(d *dbm, cond ssa.Value, truth bool) {
 			d.bottom = true
 		}
 		return
+	case *ssa.Extract:
+		if call, ok := c.Tuple.(*ssa.Call); ok {
+			b.applyGuard(d, call, c.Index, truth)
+		}
+		return
 	case *ssa.BinOp:
 		if !isAnyInt(c.X.Type()) {
+			// x != nil for a slice (or pointer) that a module function returned
+			if c.Op == token.EQL || c.Op == token.NEQ {
+				x, y := c.X, c.Y
+				if k, isK := x.(*ssa.Const); isK && k.Value == nil {
+					x, y = y, x
+				}
+				if k, isK := y.(*ssa.Const); isK && k.Value == nil && (c.Op == token.NEQ) == truth {
+					switch o := x.(type) {
+					case *ssa.Call:
+						b.applyGuard(d, o, 0, true)
+					case *ssa.Extract:
+						if call, ok := o.Tuple.(*ssa.Call); ok {
+							b.applyGuard(d, call, o.Index, true)
+						}
+					}
+				}
+			}
 			return
 		}
 		op := c.Op
@@ -1719,6 +1753,49 @@ func (b *boundsFn) refine(d *dbm, cond ssa.Value, truth bool) {
 					d.add(yi, xi, -1)
 				}
 			}
+		}
+	}
+}
+
+// summaryAt: the (contextual, else context-free) summary of the module function called by c.
+func (b *boundsFn) summaryAt(d *dbm, c *ssa.Call) *boundsSummary {
+	callee := c.Call.StaticCallee()
+	if callee == nil || callee.Pkg == nil || !core.InModule(callee.Pkg.Pkg) {
+		return nil
+	}
+	if b.summC != nil {
+		if seed, key := b.callSeed(d, c); seed != nil {
+			if s := b.summC(callee, seed, key); s != nil && s.ok {
+				return s
+			}
+		}
+	}
+	if b.summ != nil {
+		if s := b.summ(callee); s != nil && s.ok {
+			return s
+		}
+	}
+	return nil
+}
+
+// applyGuard: result ri of call c is known true / non-nil (val) or false: add what the callee guarantees about
+// all its results on the returns where that can be the case.
+func (b *boundsFn) applyGuard(d *dbm, c *ssa.Call, ri int, val bool) {
+	s := b.summaryAt(d, c)
+	if s == nil || s.cond == nil {
+		return
+	}
+	m := s.cond[guardKey{ri, val}]
+	if m == nil {
+		return
+	}
+	if s.nres == 1 {
+		b.applySummaryMatrix(d, c, s, m, 0, c)
+		return
+	}
+	for _, ref := range *c.Referrers() {
+		if x, ok := ref.(*ssa.Extract); ok {
+			b.applySummaryMatrix(d, c, s, m, x.Index, x)
 		}
 	}
 }
@@ -2229,41 +2306,74 @@ func (b *boundsFn) summary() *boundsSummary {
 		if d.bottom {
 			continue
 		}
-		// project
-		p := newDBM(n)
-		type ent struct {
-			v int
-			c int64
-			k bool
+		project := func(d *dbm) *dbm {
+			p := newDBM(n)
+			type ent struct {
+				v int
+				c int64
+				k bool
+			}
+			ents := make([]ent, n)
+			ents[0] = ent{v: 0}
+			for i, prm := range b.fn.Params {
+				vi, c, k := b.summaryVarOfValue(prm)
+				ents[1+i] = ent{vi, c, k}
+			}
+			for i, rv := range ret.Results {
+				vi, c, k := b.summaryVarOfValue(rv)
+				ents[1+s.nparam+i] = ent{vi, c, k}
+			}
+			for i := 0; i < n; i++ {
+				for j := 0; j < n; j++ {
+					if i == j {
+						continue
+					}
+					a, c := ents[i], ents[j]
+					var bound int64 = bInf
+					switch {
+					case a.k && c.k:
+						bound = a.c - c.c
+					case a.k && c.v >= 0:
+						bound = badd(a.c, d.get(0, c.v))
+					case c.k && a.v >= 0:
+						bound = badd(d.get(a.v, 0), -c.c)
+					case a.v >= 0 && c.v >= 0:
+						bound = d.get(a.v, c.v)
+					}
+					p.m[i*n+j] = bound
+				}
+			}
+			return p
 		}
-		ents := make([]ent, n)
-		ents[0] = ent{v: 0}
-		for i, prm := range b.fn.Params {
-			vi, c, k := b.summaryVarOfValue(prm)
-			ents[1+i] = ent{vi, c, k}
+		p := project(d)
+		joinCond := func(k guardKey, q *dbm) {
+			if s.cond == nil {
+				s.cond = map[guardKey]*dbm{}
+			}
+			if old := s.cond[k]; old != nil {
+				s.cond[k] = old.join(q)
+			} else {
+				s.cond[k] = q
+			}
 		}
 		for i, rv := range ret.Results {
-			vi, c, k := b.summaryVarOfValue(rv)
-			ents[1+s.nparam+i] = ent{vi, c, k}
-		}
-		for i := 0; i < n; i++ {
-			for j := 0; j < n; j++ {
-				if i == j {
+			switch t := rv.Type().Underlying().(type) {
+			case *types.Basic:
+				if t.Kind() != types.Bool {
 					continue
 				}
-				a, c := ents[i], ents[j]
-				var bound int64 = bInf
-				switch {
-				case a.k && c.k:
-					bound = a.c - c.c
-				case a.k && c.v >= 0:
-					bound = badd(a.c, d.get(0, c.v))
-				case c.k && a.v >= 0:
-					bound = badd(d.get(a.v, 0), -c.c)
-				case a.v >= 0 && c.v >= 0:
-					bound = d.get(a.v, c.v)
+				for _, val := range []bool{true, false} {
+					d2 := d.clone()
+					b.refine(d2, rv, val)
+					if !d2.bottom {
+						joinCond(guardKey{i, val}, project(d2))
+					}
 				}
-				p.m[i*n+j] = bound
+			case *types.Slice, *types.Pointer:
+				if k, isK := rv.(*ssa.Const); isK && k.Value == nil {
+					continue // nil on this return
+				}
+				joinCond(guardKey{i, true}, p)
 			}
 		}
 		if acc == nil {
